@@ -195,7 +195,16 @@ func (multi *MultiEpoch) handleGetSignaturesForAddress(ctx context.Context, conn
 	// The response is an array of objects: [{signature: string}]
 	response := make([]map[string]any, countTransactions(foundTransactions))
 	numBefore := 0
-	for ei := range foundTransactions {
+	// NOTE: foundTransactions is a map; iterate the epochs from the most recent to the oldest so that the
+	// response is ordered newest-first (ranging over the map directly yields a random epoch order).
+	epochsNewestFirst := make([]uint64, 0, len(foundTransactions))
+	for epochNumber := range foundTransactions {
+		epochsNewestFirst = append(epochsNewestFirst, epochNumber)
+	}
+	sort.Slice(epochsNewestFirst, func(i, j int) bool {
+		return epochsNewestFirst[i] > epochsNewestFirst[j]
+	})
+	for _, ei := range epochsNewestFirst {
 		epoch := ei
 		ser, err := multi.GetEpoch(epoch)
 		if err != nil {
